@@ -11,14 +11,14 @@ from vlib.runner import Ctx, Failure
 
 LEVEL = "exploration"
 RULE = (
-    "Hypothesis floats: |angle| <= 1000*2pi incl. negatives, exact dyadic multiples of pi, values within 1e-12..1e-3 of 0 "
+    "Hypothesis floats over the whole finite range (log-uniform magnitudes to 1e300, all finite doubles) incl. negatives, exact dyadic multiples of pi, values within 1e-12..1e-3 of 0 "
     "and of 2pi (both sides), subnormals, -0.0; tolerance 1e-9..1e-2 (log-uniform + the default 1e-4).  Oracle: exact "
-    "rational sum of n_i/2^d_i times a 60-digit pi vs. the angle, circular distance < tol (+|angle|*2^-50 float allowance), "
+    "rational sum of n_i/2^d_i times pi vs. the angle, circular distance < tol (+1e-13), with pi read as the real number (60 digits) or as the double the code reduces with - either reading is accepted, "
     "every n,d an int in 0..255, bounded number of steps; pipeline: q.rot_X/Y/Z(angle=a) emits exactly these steps.  "
     "Non-trivial = angle not within tol of 0 mod 2pi (>=1 step needed); distinct by (angle, tol)"
 )
 ASSUMPTIONS = [
-    "|angle| <= 1000*2pi; an allowance of |angle|*2^-50 + 1e-15 covers the float reduction modulo 2pi",
+    "'modulo 2 pi' may be read with the exact real pi or with the double-precision constant 2*pi (Python's float % is exact, so the code's own reduction has no error under that reading); a result within tolerance under either reading is accepted, so an implementation that reduces with extended precision is not reported",
     "tolerance is the docstring's: abs(sum_i n_i pi/2^d_i - angle) < tol, read modulo 2pi",
 ]
 SHARDS = {"quick": 1, "thorough": 16}
@@ -51,6 +51,36 @@ def circ_dist(nds, angle: float) -> Fraction:
     return abs(diff - k * TWO_PI)
 
 
+F_PI = Fraction(math.pi)
+F_TWO_PI = Fraction(2 * math.pi)
+
+
+def circ_dist_float(nds, angle: float) -> Fraction:
+    """the same distance with pi read as the double-precision constant the code reduces with (float % is exact)"""
+    s = sum((Fraction(n, 1) / (Fraction(2) ** d) for n, d in nds), Fraction(0)) * F_PI
+    diff = Fraction(angle) % F_TWO_PI - s
+    k = round(diff / F_TWO_PI)
+    return abs(diff - k * F_TWO_PI)
+
+
+SLACK = Fraction(1, 10**13)
+
+
+def within(nds, angle: float, tol) -> Fraction:
+    """smaller of the two distances if one of the two readings of 'modulo 2 pi' is within tolerance, else raises"""
+    d_true = circ_dist(nds, angle)
+    if d_true < Fraction(tol) + SLACK:
+        return d_true
+    d_float = circ_dist_float(nds, angle)
+    if d_float < Fraction(tol) + SLACK:
+        return d_float
+    raise _TooFar(min(d_true, d_float))
+
+
+class _TooFar(Exception):
+    pass
+
+
 def check_angle(angle: float, tol) -> int:
     case = {"kind": "spec", "angle": repr(angle), "tol": None if tol is None else repr(tol)}
     eff_tol = 1e-4 if tol is None else tol
@@ -65,11 +95,11 @@ def check_angle(angle: float, tol) -> int:
     for n, d in nds:
         if not (isinstance(n, int) and isinstance(d, int) and 0 <= n <= 255 and 0 <= d <= 255):
             raise Failure("spec:not-encodable", case, f"step (n={n!r}, d={d!r}) of {nds} is not representable in 8-bit fields")
-    dist = circ_dist(nds, angle)
-    allow = Fraction(abs(angle)) / 2**50 + Fraction(1, 10**15)
-    if dist >= Fraction(eff_tol) + allow:
+    try:
+        within(nds, angle, eff_tol)
+    except _TooFar as e:
         raise Failure(
-            "spec:tolerance", case, f"steps {nds} are {float(dist):.3e} away from angle {angle!r} (mod 2pi); tolerance {eff_tol!r}"
+            "spec:tolerance", case, f"steps {nds} are {float(e.args[0]):.3e} away from angle {angle!r} (mod 2pi); tolerance {eff_tol!r}"
         )
     return len(nds)
 
@@ -102,10 +132,10 @@ def check_pipeline(angle: float, axis: str) -> int:
     want = [tuple(x) for x in spec(angle, None)]
     if got != want:
         raise Failure("pipeline:steps", case, f"emitted rotation steps {got} != angle spec {want}")
-    dist = circ_dist(got, angle)
-    allow = Fraction(abs(angle)) / 2**50 + Fraction(1, 10**15)
-    if dist >= Fraction(1e-4) + allow:
-        raise Failure("pipeline:tolerance", case, f"emitted steps {got} are {float(dist):.3e} from {angle!r}")
+    try:
+        within(got, angle, 1e-4)
+    except _TooFar as e:
+        raise Failure("pipeline:tolerance", case, f"emitted steps {got} are {float(e.args[0]):.3e} from {angle!r}")
     return len(got)
 
 
@@ -118,7 +148,8 @@ def st_angle():
     near2pi = st.builds(lambda e, s, k: k * TWO_PI_F + s * e, eps, st.sampled_from([1, -1]), st.integers(-3, 3))
     dyadic = st.builds(lambda n, d, s: s * n * math.pi / 2**d, st.integers(0, 1024), st.integers(0, 40), st.sampled_from([1, -1]))
     uniform = st.floats(-TWO_PI_F, 2 * TWO_PI_F, allow_nan=False)
-    wide = st.floats(-1000 * TWO_PI_F, 1000 * TWO_PI_F, allow_nan=False, allow_infinity=False)
+    wide = st.floats(-1000 * TWO_PI_F, 1000 * TWO_PI_F, allow_nan=False, allow_infinity=False) | st.floats(allow_nan=False, allow_infinity=False) | st.builds(
+        lambda e, m, s_: s_ * m * 10.0**e, st.integers(3, 300), st.floats(1.0, 10.0), st.sampled_from([1, -1]))
     special = st.sampled_from([0.0, -0.0, math.pi, -math.pi, TWO_PI_F, -TWO_PI_F, math.pi / 2, 0.0002, 1e-4, math.nextafter(TWO_PI_F, 0), math.nextafter(TWO_PI_F, 10)])
     return st.one_of(uniform, uniform, near0, near2pi, dyadic, wide, special)
 
